@@ -15,3 +15,7 @@ ASSUMPTIONS = [
     "datetime.timestamp() is a function of the datetime value (uninterpreted here; refined under C08)",
 ]
 FUNCTIONS = FUNCTIONS + MEM_REFINEMENT  # MemoryStorage refines the abstract Storage contract
+# the reads that are not wrapped by read_op (clause "any read leaves the index valid"; known finding KF-20) and the read operations that are
+FUNCTIONS = FUNCTIONS + [TF + "__iter__", TF + "all", TF + "count"] + ["tinyflux.measurement.Measurement." + f for f in ("__len__", "__iter__", "all")]
+# the property is KNOWN not to hold for len()/iteration (KF-20): their four obligations are not discharged, so the claim is not proof-level
+LEVEL = "other"
